@@ -344,10 +344,15 @@ impl<'p> Interp<'p> {
         }
         let saved_loop = std::mem::replace(&mut self.loop_depth, 0);
         let mut result = Ok(RV::Nil);
+        // the function-level scope is closed by the same scope-end instructions as a loop body
+        // when control falls off the end of the body (an explicit Return closes by frame)
+        act.loop_scopes.push((0, act.junk, false));
+        let mut fell_through = true;
         for s in body {
             match self.exec(act, s) {
                 Ok(Flow::Normal) => {}
                 Ok(Flow::Return(v)) => {
+                    fell_through = false;
                     result = if act.is_main { Err(ErrKind::BadReturn) } else { Ok(v) };
                     break;
                 }
@@ -356,10 +361,16 @@ impl<'p> Interp<'p> {
                     break;
                 }
                 Err(e) => {
+                    fell_through = false;
                     result = Err(e);
                     break;
                 }
             }
+        }
+        if fell_through && !act.is_main {
+            // keep only the function-level marker (inner ones were popped by their loops)
+            act.loop_scopes.truncate(1);
+            self.leave_loop_scope(act);
         }
         self.loop_depth = saved_loop;
         self.depth -= 1;
